@@ -84,8 +84,8 @@ def cases(tier: str, seed: int) -> List[Dict[str, Any]]:
                     out.append({"forest": [[tau, fn, []], [tau, "double", [[tau, fn, []]]]], "shape": [2, 3], "mode": mode,
                                 "seed": seed, "grad_mode": gm})
             for pre in ("bfloat16", "float16", "float32"):
-                out.append({"forest": [[tau, fn, []]], "shape": [2, 3], "mode": "split_add", "seed": seed, "pre_dtype": pre})
-                out.append({"forest": [[tau, fn, [[tau, "tanh", []]]]], "shape": [3], "mode": "apply", "seed": seed, "pre_dtype": pre})
+                out.append({"forest": [[tau, fn, []]], "shape": [2, 3], "mode": "split_add", "seed": seed, "pre_dtype": pre, "fresh": True})
+                out.append({"forest": [[tau, fn, [[tau, "tanh", []]]]], "shape": [3], "mode": "apply", "seed": seed, "pre_dtype": pre, "fresh": True})
     for tau in (0.25, 1.0, 3.0, None):
         for fn in ("inplace_double", "tanh", "to_float32"):
             for mode in ("split_add", "apply"):
